@@ -8,7 +8,7 @@ PY = "/venv/bin/python -B -m vf.run"
 CHECKS = {
     "C02": dict(
         technique="runtime exception-class monitor + message-method monitor + logical step budget (sys.monitoring PY_START|PY_RESUME) over corpus mutants, short strings and type-confused data",
-        text="Exploration: every execution of from_string/render/render_async over ~3.5e5 (quick) / ~1e7 (thorough) hostile inputs is watched by an exception-class monitor, the three message methods are invoked on every LiquidError, and a logical step counter enforces a budget polynomial in input size. Held = no unlisted escape mechanism on what was executed.",
+        text="Exploration: every execution of from_string/render/render_async over ~3.5e5 (quick) / ~1e7 (thorough) hostile inputs is watched by an exception-class monitor, the three message methods are invoked on every LiquidError, and a logical step counter enforces a budget polynomial in input size (plus a CPU-time probe for membership tests that walk a range in C code); sources that mention optional tags/filters are re-run under the Shopify-flavoured environment, dotted digits under shorthand_indexes. Held = no unlisted escape mechanism on what was executed.",
         note="Trusted: CPython, sys.monitoring event delivery, the corpus snapshot. C-level loops and regex back-tracking are outside the step counter (wall-clock watchdog only => inconclusive).",
         ref="4/C02",
     ),
@@ -16,7 +16,7 @@ CHECKS = {
 
 CHECKS["C17"] = dict(
     technique="structural invariants asserted on the real lexer's token lists, on every token reachable from the parsed tree and on every raised error's token (tiling, span re-lex, path re-lex, nesting/order, position bounds, context() text agreement, line numbers of extracted translation messages), under the default configuration and shorthand_indexes=True",
-    text="Exploration: ~9e4 (quick) sources — corpus templates, their mutants, comment/raw/unicode insertions at token boundaries and random fragment concatenations — are tokenized and parsed by the real code; the monitor asserts exact tiling, that each span re-lexes to the same token, nesting and order of expression tokens, and that every error position and context() line refer to the text at that offset; every path token's span must scan alone to the same path; ~3e3 multi-line sources with uniquely named translatable literals check that each extracted message's line is the line of its literal (filters) or of its tag.",
+    text="Exploration: ~9e4 (quick) sources — corpus templates, their mutants, comment/raw/unicode insertions at token boundaries and random fragment concatenations — are tokenized and parsed by the real code; the monitor asserts exact tiling, that each span re-lexes to the same token, nesting and order of expression tokens, and that every error position and context() line refer to the text at that offset; every path token's span must scan alone to the same path and carry no surrounding white space, every line statement of a liquid tag must scan alone to the same statement; an error's token must belong to the source being parsed, the template it names must be the template its token lies in, and an error that names a token kind / tag points at that token / tag; under the strict undefined types the position of an UndefinedError must not depend on which other missing name an earlier tolerated construct read; ~3e3 multi-line sources with uniquely named translatable literals check that each extracted message's line is the line of its literal (filters) or of its tag.",
     note="Trusted: the harness's own slicing/re-lexing logic. A position == len(source) counts as inside; -1 on EOI/error tokens is the 'no position' sentinel.",
     ref="4/C17",
 )
@@ -36,14 +36,14 @@ CHECKS["C13"] = dict(
 )
 CHECKS["C18"] = dict(
     technique="metamorphic runtime oracle on real renders: all/sampled assignments of whitespace-control markers x default_trim x blank-block suppression compared modulo whitespace with the marker-free render; verbatim text checked against the reference interpreter",
-    text="Exploration: ~4e5 (quick) real renders; for each generated program every assignment of {none,-,~,+} to its marker positions (exhaustive when <= 6 positions, sampled beyond) under default_trim in {+,-,~} and suppression on/off must equal the marker-free output once str.isspace() characters are deleted, and (all assignments of exhaustive programs, a quarter of the sampled ones; ~2.8e5 in quick) must equal character for character the reference text in which each marker trims only the text adjacent to its own markup; a bounded-exhaustive family of blank/non-blank nests prints the state assigned, captured and counted inside suppressed blocks; a look-alike family keeps `{#`, `{`, `#}`, `}}`, `%}` that are not markup inside literal text.",
+    text="Exploration: ~4e5 (quick) real renders; for each generated program every assignment of {none,-,~,+} to its marker positions (exhaustive when <= 6 positions, sampled beyond) under default_trim in {+,-,~} and suppression on/off must equal the marker-free output once str.isspace() characters are deleted, and (all assignments of exhaustive programs, a quarter of the sampled ones; ~2.8e5 in quick) must equal character for character the reference text in which each marker trims only the text adjacent to its own markup; a translate family with an exact-id catalog requires that markers never change which message is looked up; a hooks family requires an observing Environment.trim() override to be consulted for every text render and tablerow markup to survive blank-block suppression; a bounded-exhaustive family of blank/non-blank nests (with break/continue in blank loops) prints the state assigned, captured and counted inside suppressed blocks; a look-alike family keeps `{#`, `{`, `#}`, `}}`, `%}` that are not markup inside literal text.",
     note="Trusted: the emitter's marker placement and the shared generator profile (expressions never inspect captured text; captured variables are only printed).",
     ref="4/C18",
 )
 
 CHECKS["C03"] = dict(
     technique="sync/async differential oracle on real executions + deterministic coroutine scheduler enumerating interleavings of concurrent render_async calls at drop/loader await points",
-    text="Exploration: ~2e3 (quick) sync/async pairs over corpus templates (partials moved into sub-directories), grammar-generated programs and inheritance/macro/translate fixtures with lazily awaited drops and 8 loader kinds, compared on output | (error class, template name, offset), plus get_template/analyze twins; ~3e4 explored schedules of 2-3 concurrent renders sharing one Template (exhaustive when <= 2000 interleavings) each compared with the solo result.",
+    text="Exploration: ~2e3 (quick) sync/async pairs over corpus templates (partials moved into sub-directories), grammar-generated programs and inheritance/macro/translate fixtures with lazily awaited drops, 19 loader kinds (dict, gated, caching, file-system, package, choice, docs-style subclasses that override one or both source methods, route on load context or return matter) and 8 environment configurations (strict/falsy-strict undefined, auto-escape, small resource limits, Shopify tags), compared on output | (error class, template name, offset), plus get_template (with load-context keyword arguments and with environment/template globals over repeated loads) / analyze twins; ~3e4 explored schedules of 2-3 concurrent renders sharing one Template (exhaustive when <= 2000 interleavings) each compared with the solo result.",
     note="Trusted: the hand-driven scheduler (liquid2 awaits only harness-supplied awaitables with dict loaders); file-system loaders run under asyncio with uncontrolled executor interleavings.",
     ref="4/C03, 2.4",
 )
@@ -76,7 +76,7 @@ CHECKS["C10"] = dict(
 
 CHECKS["C09"] = dict(
     technique="history-vs-fresh oracle on recorded operation histories over shared Environment/Template/loader objects, with fault injection at the k-th data access / loader call, a harness-controlled clock, and the deterministic coroutine scheduler for concurrent renders",
-    text="Exploration: ~1.7e4 (quick) steps of ~4.7e3 histories (render, render_async, analyze, from_string, get_template, liquid2.render/parse, configure-environment, faulted renders, failing loads) on two long-lived environments are each compared with the same call on freshly built objects under the same clock reading; the clock advances between steps; every fault position of the fault-free run is swept; ~2e4 interleavings of concurrent renders of one shared Template are compared with solo results.",
+    text="Exploration: ~1.7e4 (quick) steps of ~4.7e3 histories (render, render_async, analyze, from_string, get_template, liquid2.render/parse, configure-environment, faulted renders, failing loads) on two long-lived environments (one with the strict undefined type) are each compared with the same call on freshly built objects under the same clock reading; the clock advances between steps; every fault position of the fault-free run is swept; ~2e4 interleavings of concurrent renders of one shared Template are compared with solo results.",
     note="Trusted: the clock shim (the only two modules reading the wall clock are patched), the fresh-twin construction (configuration actions are inputs). Caching-loader content staleness is C14's subject.",
     ref="4/C09, 2.4, 2.5",
 )
